@@ -710,10 +710,11 @@ def c08(ctx, res):
                                 "before": _snap_brief(before), "after": _snap_brief(after)})
     # ---- strace: injected write errors on the k-th write of a successful compile
     c08_inject(ctx, res, good[:1 if not ctx.thorough() else 6], d)
+    c08_fsize(ctx, res, big, d)
     floors = ["fault:emit_fail", "fault:ok", "fault:ok_top_of_memory", "fault:dev_full", "fault:missing_parent", "fault:dest_is_directory",
               "dest:pre-existing", "dest:absent", "success_complete", "failure_destination_untouched",
               "fault:name_not_utf8", "fault:name_long_2byte", "fault:name_long_3byte", "fault:name_long_4byte", "fault:name_long_ascii",
-              "fault:ok_big_zero_tail", "fault:ok_big_zero_middle", "dest:pre-existing-same-size"]
+              "fault:ok_big_zero_tail", "fault:ok_big_zero_middle", "dest:pre-existing-same-size", "fault:file_size_limit", "file_size_limit:object_fits"]
     res.require(floors, "L2")
     return res
 
@@ -724,6 +725,55 @@ def _snap_brief(s):
     if s[0] == "file":
         return "file %d bytes %s" % (len(s[1]), s[1][:24].hex())
     return s[0]
+
+
+def c08_fsize(ctx, res, big, d):
+    """A destination that can only take part of the object: the process runs under a file-size limit
+    (RLIMIT_FSIZE, what `ulimit -f` sets), so the kernel performs a *short* write and refuses the next."""
+    import resource
+    exe = common.cli_bin(ctx)
+    env = dict(common.ENV, NO_COLOR="1", XDG_CACHE_HOME=ctx.scratch)
+    jobs = []
+    for bi, (kind, src, words) in enumerate(big):
+        n = 2 * len(words)
+        for limit in sorted({1, 2, 4096, 4098, n - 2, n - 1, n}):
+            if 0 < limit <= n:
+                jobs.append((bi, limit))
+
+    def one(job):
+        bi, limit = job
+        kind, src, words = big[bi]
+        cd = os.path.join(d, "fsize%d_%d" % (bi, limit))
+        os.makedirs(cd, exist_ok=True)
+        _write(os.path.join(cd, "in.asm"), src)
+
+        def lim():
+            resource.setrlimit(resource.RLIMIT_FSIZE, (limit, limit))
+        p = subprocess.run([exe, "compile", "in.asm", "out.lc3"], cwd=cd, env=env, stdin=subprocess.DEVNULL,
+                           stdout=subprocess.PIPE, stderr=subprocess.PIPE, preexec_fn=lim, timeout=60)
+        return job, p, snapshot(os.path.join(cd, "out.lc3"))
+    for (bi, limit), p, after in pmap(one, jobs):
+        kind, src, words = big[bi]
+        img = b"".join(int(w).to_bytes(2, "big") for w in words)
+        res.evaluations += 1
+        res.cls("fault:file_size_limit")
+        detail = {"source": src, "object_bytes": len(img), "file_size_limit": limit, "exit": p.returncode,
+                  "stderr": p.stderr.decode("utf-8", "replace")[-400:], "after": _snap_brief(after)}
+        complete = after is not None and after[0] == "file" and after[1] == img
+        if limit >= len(img):
+            res.cls("file_size_limit:object_fits")
+            if p.returncode != 0 or not complete:
+                res.violate("C08/exit-0-incomplete-file/file_size_limit" if p.returncode == 0 else "C08/failed-although-object-fits",
+                            "the object fits the file-size limit exactly, yet exit %s / destination %s" % (p.returncode, _snap_brief(after)), detail)
+        elif p.returncode == 0:
+            res.violate("C08/exit-0-incomplete-file/file_size_limit",
+                        "exit 0 although only %d of %d bytes could be written (short write not noticed)" % (limit, len(img)), detail)
+        elif after is not None:
+            # same defect as the strace-injected write error: nothing removes the file just created
+            res.violate("C08/injected-write-error/regular-file-residue",
+                        "exit %s under a file-size limit of %d bytes, but a partial destination file was left behind" % (p.returncode, limit), detail)
+        else:
+            res.cls("file_size_limit:handled")
 
 
 def c08_inject(ctx, res, entries, d):
